@@ -497,3 +497,45 @@ def c11_i7(ctx):
                 n += 1
                 yield bad("C11-I7", "%s:%s" % (short(f.root or f.norm), cal.split("::")[-1]) + ("#%d" % n if n > 1 else ""), at(f, t["span"]["line"]), "%s fails when the receiving task's queue is full as well as when the task has ended: a live transaction is treated as gone (its PDU dropped or a second transaction spawned under the same id)" % cal.split("::")[-1])
     yield ok("C11-I7", "daemon:no-lossy-send", "%d functions" % len(fns), "%d non-waiting sends" % n, nontrivial=(n == 0))
+
+
+# ================================================================ C11-I9: an undecodable datagram never stops the transport task
+@rule("C11", "C11-I9", 1, "whatever a transport's receive() reports for one datagram - truncated, garbled, any io error kind - the receive loop of pdu_handler goes on to the next one: no path from the Err arm of the receive result leaves the loop", also=("C06", "C16"))
+def c11_i9(ctx):
+    from core import natural_loops
+
+    fs = [f for f in ctx.prog.by_norm.values() if f.crate == "cfdp_daemon" and (f.root or f.norm).endswith("PDUTransport::pdu_handler") and f.kind == "Closure"]
+    if not fs:
+        raise Anchor("C11-I9", "the coroutine body of PDUTransport::pdu_handler")
+    n = 0
+    for f in fs:
+        loops = natural_loops(f)
+        for b in f.live_blocks():
+            for st in f.blocks[b]["stmts"]:
+                if st["k"] != "assign" or st["rv"]["k"] != "use" or st["rv"]["op"].get("k") not in ("move", "copy"):
+                    continue
+                pl = st["rv"]["op"]["place"]
+                pj = pl["proj"]
+                if len(pj) < 2 or pj[-2].get("k") != "downcast" or pj[-2].get("variant") != "Err" or pj[-1].get("k") != "field":
+                    continue
+                root_ty = f.locals[pl["local"]]["ty"] or ""
+                inner_ty = " ".join(str(e.get("ty", "")) for e in pj)
+                dest_ty = st["place"].get("ty") or ""
+                if "io::" not in dest_ty or "Error" not in dest_ty or "SendError" in dest_ty:
+                    continue  # (only the io::Error a receive() reports - not the failure of the channel to the daemon)
+                n += 1
+                heads = {h for h, bd, bk in loops if b in bd}
+                r = f.reachable(b, avoid=heads)
+                leak = [x for x in r if f.blocks[x]["term"]["k"] == "return" or any(s2["k"] == "assign" and s2["place"]["local"] == 0 and not s2["place"]["proj"] for s2 in f.blocks[x]["stmts"])]
+                key = "pdu_handler:receive-error-arm" + ("#%d" % n if n > 1 else "")
+                outer = [h for h, bd, bk in loops if b not in bd and b in f.reachable(h)]
+                if not heads and outer:
+                    yield bad("C11-I9", key, at(f, st["span"]["line"]), "a failed receive() can end the transport task: this Err arm of the receive result lies on a way out of the receive loop - one stray datagram of the right kind closes the daemon's PDU channel and the daemon stops")
+                elif not heads:
+                    yield undecided("C11-I9", key, at(f, st["span"]["line"]), "the error arm of the receive result is not inside a loop")
+                elif leak:
+                    yield bad("C11-I9", key, at(f, st["span"]["line"]), "a failed receive() can end the transport task: a path from the Err arm of the receive result returns from pdu_handler - one stray datagram of the right kind closes the daemon's PDU channel and the daemon stops")
+                else:
+                    yield ok("C11-I9", key, at(f, st["span"]["line"]), "every path from the Err arm goes back to the head of the receive loop")
+    if n == 0:
+        raise Anchor("C11-I9", "the Err arm of the receive() result in pdu_handler")
